@@ -767,3 +767,21 @@ R.contract(
     },
     replayable=False,
 )
+
+
+# ------------------------------------------------------------------------------------------------- get_all_by_name: what was registered under the name, in registration order (register_hook_with_name: verified above)
+R.contract(
+    H + "HookDispatcher.get_all_by_name",
+    variant="lookup",
+    prop="C19",
+    args={"self": Obj(H + "HookDispatcher", _hooks=DictOf(optional={"before_generate_case": ListOf(Opq("RegisteredHook"), [0, 1, 2], widen=False), "map_case": ListOf(Opq("RegisteredHook"), [1], widen=False)})),
+          "name": Choice("before_generate_case", "map_case", "filter_case")},
+    raises=[],
+    ensures={
+        "the_hooks_registered_under_that_name_in_registration_order": "(length(result) == length(self._hooks[name]) and all(result[i] is self._hooks[name][i] for i in range(length(result)))) if name in self._hooks else length(result) == 0",
+        "asking_does_not_register_anything": "self._hooks == old(deep_hooks(self._hooks))",
+    },
+    bounded_note="two hook names with up to 2 hooks",
+    replayable=False,
+)
+R.spec_funcs["deep_hooks"] = lambda it, d: {k: list(v) for k, v in d.items()}
